@@ -454,6 +454,7 @@ func runRelSSH(n, k int) {
 // ---- inputs: per service a well-formed dialogue prefix, plus generic ones ----
 
 func c09Inputs(svc string, r *Rng) [][]byte {
+	svc = strings.TrimSuffix(svc, "-tcp") // the stream twin of a datagram service gets the same inputs
 	gen := map[string]func(*Rng) []unit{"ftp": genFTP, "telnet": genTelnet, "memcached": genMemcached, "redis": genRedis, "smtp": genSMTP, "http": genHTTP}
 	ins := [][]byte{nil, []byte("\r\n"), r.Bytes(r.Range(1, 40)), []byte("GET / HTTP/1.1\r\nHost: x\r\n\r\n")}
 	if g, ok := gen[svc]; ok {
